@@ -227,6 +227,14 @@ func (server *Server) ServeRequest(ctx *Context, recving *sync.Mutex, wg *sync.W
 		return err
 	}
 	vhook("v.dispatch", ctx.codec, nil, ctx.Seq, vupgrade(ctx.upgrade))
+	if !ctx.upgrade.valid() {
+		// a flag combination no client of this protocol sends: reject the request
+		// instead of running the dispatch below on half-initialised state
+		ctx.Error = "invalid upgrade flags"
+		ctx.upgrade.Reset()
+		server.sendResponse(ctx)
+		return nil
+	}
 	if ctx.upgrade.Heartbeat == heartbeat {
 		server.sendResponse(ctx)
 		return nil
